@@ -31,6 +31,7 @@ type Case struct {
 	Repeat     []int  `json:"repeat"`       // how often each participant is closed (1-3)
 	Concurrent bool   `json:"concurrent"`   // close everything concurrently instead of in order
 	WaitMS     int    `json:"wait_ms"`      // how long callers wait / detector runs before closing
+	DialStorm  int    `json:"dial_storm,omitempty"` // goroutines that keep connecting (and leaving at once) while everything is being closed
 }
 
 func gen(t *rapid.T) Case {
@@ -61,6 +62,9 @@ func gen(t *rapid.T) Case {
 	}
 	if c.UseClient {
 		n++
+	}
+	if rapid.IntRange(0, 2).Draw(t, "dial_storm") == 0 {
+		c.DialStorm = rapid.IntRange(1, 4).Draw(t, "storm_goroutines")
 	}
 	c.Order = rapid.Permutation(seq(n)).Draw(t, "order")
 	for i := 0; i < n; i++ {
@@ -368,6 +372,35 @@ func run(c Case) kit.Outcome {
 			}
 		}
 	}
+	// connections that arrive while the servers are being closed: peers that connect and leave at
+	// once, until the address refuses them. Whatever the server accepted of them is its to close.
+	var stormStop int32
+	var stormWG sync.WaitGroup
+	stormDials := int64(0)
+	if c.DialStorm < 0 || c.DialStorm > 16 {
+		return kit.Outcome{Invalid: true}
+	}
+	for g := 0; g < c.DialStorm; g++ {
+		stormWG.Add(1)
+		go func(g int) {
+			defer stormWG.Done()
+			a := addrs[g%c.Servers]
+			for atomic.LoadInt32(&stormStop) == 0 {
+				pc, err := rpc.DialWithOptions(a, opts)
+				if err != nil {
+					time.Sleep(50 * time.Microsecond)
+					continue
+				}
+				atomic.AddInt64(&stormDials, 1)
+				pc.Close()
+			}
+		}(g)
+	}
+	stopStorm := func() {
+		atomic.StoreInt32(&stormStop, 1)
+		stormWG.Wait()
+	}
+	defer stopStorm()
 	closeStart := time.Now()
 	if c.Concurrent {
 		var wg sync.WaitGroup
@@ -384,6 +417,7 @@ func run(c Case) kit.Outcome {
 	if verdict != nil {
 		return fail(*verdict)
 	}
+	stopStorm()
 	// a server started during Client.Close is a participant too
 	for i := range srvs {
 		if srvs[i] != nil {
@@ -446,6 +480,10 @@ func run(c Case) kit.Outcome {
 		return fail(o)
 	}
 	out := kit.Outcome{Classes: []string{"enc=" + c.Enc}}
+	if c.DialStorm > 0 {
+		out.Classes = append(out.Classes, "connections-arriving-during-close")
+		out.Counters = map[string]int{"storm_dials": int(atomic.LoadInt64(&stormDials))}
+	}
 	busy := (c.InFlight > 0 || c.Streams > 0) && len(conns) > 0 || c.TransCalls > 0 && c.UseTrans || c.Waiters > 0
 	clientFirst := true
 	// "client-first" = all client-side participants before every server in the order
